@@ -2,6 +2,7 @@ package props
 
 import (
 	"fmt"
+	"github.com/jf-tech/omniparser/idr"
 
 	"github.com/jf-tech/omniparser"
 
@@ -114,6 +115,10 @@ func runC14(c *Ctx) []Violation {
 	c.SigMix(s.TraceSig())
 	if s.Switches > 0 {
 		c.Nontrivial = true
+	}
+	if !c.Race {
+		// pool behaviour is part of the deterministic execution (plain build only: race builds drop pooled items at random)
+		c.Ev("node-id-counter", idr.VerifNodeIDCounter())
 	}
 	c.Ev("c14", s.TraceSig(), s.Steps)
 	c.Sample = map[string]interface{}{"tasks": k, "worlds": nWorlds, "yields": s.Steps, "switches": s.Switches, "interleaving_hash": fmt.Sprintf("%016x", s.TraceSig()), "task0": tasks[0].w.Name}
